@@ -62,7 +62,9 @@ type Gen struct {
 	stack     []reflect.Type
 	ptrs      map[reflect.Type][]reflect.Value
 	lastBin   reflect.Value
-	Desc      []string // human-readable record of the non-default choices
+	lastMap   map[reflect.Type]reflect.Value // the previous non-empty map of each type (for sharing)
+	lastSlice map[reflect.Type]reflect.Value // the previous non-empty slice of each type (for sharing)
+	Desc      []string                       // human-readable record of the non-default choices
 	keep      []interface{}
 }
 
@@ -255,8 +257,26 @@ func (g *Gen) Value(t reflect.Type, path string) reflect.Value {
 		if len(g.stack) >= g.MaxDepth {
 			lens = []int{-1, 0}
 		}
-		i := pick(len(lens))
+		shared, canShare := g.lastSlice[t]
+		na := len(lens)
+		if canShare {
+			na++ // one more alternative: the very same slice (header) as the previous one of this type
+		}
+		i := pick(na)
+		if i == len(lens) {
+			g.note(path, "same-slice-as-previous")
+			v.Set(shared)
+			return v
+		}
 		n := lens[i]
+		defer func() {
+			if v.Len() > 0 {
+				if g.lastSlice == nil {
+					g.lastSlice = map[reflect.Type]reflect.Value{}
+				}
+				g.lastSlice[t] = v
+			}
+		}()
 		if i > 0 {
 			g.note(path, fmt.Sprintf("len%d", n))
 		}
@@ -274,8 +294,26 @@ func (g *Gen) Value(t reflect.Type, path string) reflect.Value {
 		if len(g.stack) >= g.MaxDepth {
 			sizes = []int{-1, 0}
 		}
-		i := pick(len(sizes))
+		sharedM, canShareM := g.lastMap[t]
+		nm := len(sizes)
+		if canShareM {
+			nm++ // one more alternative: the very same map as the previous one of this type
+		}
+		i := pick(nm)
+		if i == len(sizes) {
+			g.note(path, "same-map-as-previous")
+			v.Set(sharedM)
+			return v
+		}
 		n := sizes[i]
+		defer func() {
+			if v.Len() > 0 {
+				if g.lastMap == nil {
+					g.lastMap = map[reflect.Type]reflect.Value{}
+				}
+				g.lastMap[t] = v
+			}
+		}()
 		if i > 0 {
 			g.note(path, fmt.Sprintf("size%d", n))
 		}
